@@ -198,10 +198,32 @@ def dec_deep(x):
     return x
 
 
+_DRIVER_BUILT = set()
+
+
+def build_driver_imports(driver):
+    """the driver is interpreted against compiled modules: make sure everything it imports is built from the
+    current sources (the regenerated facts may have changed since the last build)"""
+    if driver in _DRIVER_BUILT:
+        return
+    mods = []
+    with open(os.path.join(LEAN, "Driver", driver)) as f:
+        for line in f:
+            m = re.match(r"import\s+(KojenVerif\.\S+)", line)
+            if m:
+                mods.append(m.group(1))
+    if mods:
+        rc, out, err = run(["lake", "build"] + mods, cwd=LEAN, timeout=3000)
+        if rc != 0:
+            raise Infra("building the Lean driver's imports failed: " + (out + err)[-800:])
+    _DRIVER_BUILT.add(driver)
+
+
 def lean_batch(requests, driver="Main.lean", timeout=1800):
     """send all requests (dicts) to the Lean driver, return the list of answers"""
     if not requests:
         return []
+    build_driver_imports(driver)
     data = "\n".join(json.dumps(enc_deep(r), ensure_ascii=False) for r in requests) + "\n"
     p = subprocess.run(["lake", "env", "lean", "--run", os.path.join("Driver", driver)], cwd=LEAN,
                        input=data.encode("utf-8"), capture_output=True, timeout=timeout)
